@@ -8,7 +8,7 @@
    in C17_filter_invisible) is NOT unit-covariant: see the known finding K-C09-assembly-cutoff. *)
 From Coq Require Import ZArith QArith Qabs Reals List Bool Arith Lia.
 From Inkfem Require Import Num.NumOps Gen.GenStiffness Gen.GenLoads Gen.GenRecover Spec.Stiffness
-  Model.Types Proofs.StiffnessQ Proofs.UnitsProofs Gen.GenSolver Gen.GenAccept Proofs.SolverProofs Proofs.AcceptBound Model.Slice Model.Loads Model.Dof Model.Assemble Spec.Resultant Spec.Superposition Proofs.AssembleProofs Proofs.SystemProofs Proofs.UnitsBar Proofs.UnitsStructure.
+  Model.Types Proofs.StiffnessQ Proofs.UnitsProofs Gen.GenSolver Gen.GenAccept Proofs.SolverProofs Proofs.AcceptBound Model.Slice Model.Loads Model.Dof Model.Assemble Spec.Resultant Spec.Superposition Proofs.AssembleProofs Proofs.SystemProofs Proofs.UnitsBar Proofs.UnitsStructure Gen.GenPcg Proofs.PcgProofs Proofs.PcgAccept.
 Import ListNotations.
 
 Theorem C09_stiffness_units_R : forall (L c s t1 t2 E A I lam phi x1 y1 r1 x2 y2 r2 : R),
@@ -70,6 +70,16 @@ Theorem C09_solver_aims_within_the_requested_error : forall e : Q, (0 < e ->
   0 < solver_tolerance (O:=QOps) e /\ solver_tolerance (O:=QOps) e <= accept_bound (O:=QOps) e)%Q.
 Proof. intros e He. split; [apply solver_tolerance_positive; exact He | apply solver_tolerance_within_bound; apply Qlt_le_weak; exact He]. Qed.
 Print Assumptions C09_solver_aims_within_the_requested_error.
+
+(* ... and (on the model of the solver's loop, Gen/GenPcg.v) an answer the solver itself finds good enough at the tolerance it is
+   given passes the acceptance test that follows, whatever the unit of force the error is expressed in: in exact arithmetic
+   the second test turns away nothing the first let through *)
+Theorem C09_what_the_solver_finds_good_enough_passes_the_acceptance_test :
+  forall (n : nat) (A : nat -> nat -> Q) (b : nat -> Q) (e : Q) (k : nat), (0 <= e)%Q ->
+  (forall i, (i < n)%nat -> (Qabs (pcg_r (pcg_iter n A k (pcg_init n A b)) i) <= solver_tolerance (O:=QOps) e)%Q) ->
+  forall i, (i < n)%nat -> (Qabs (b i - pcg_mv n A (pcg_answer n A b k) i) <= accept_bound (O:=QOps) e)%Q.
+Proof. exact good_enough_for_the_solver_is_good_enough. Qed.
+Print Assumptions C09_what_the_solver_finds_good_enough_passes_the_acceptance_test.
 
 (* a whole bar of the slicing model (Model/Slice.v + Model/Loads.v over the regenerated lump_gen / own_weight_gen;
    tied to preprocess/*.go by correspondence stage B), with or without its own weight: written in another unit
